@@ -137,6 +137,7 @@ Proof.
   intros Hl Hok Hoff. unfold offer in Hoff. rewrite Hl, nth_error_split_S in Hoff.
   destruct post as [|t post]; simpl in Hoff.
   - (* sink *)
+    destruct (l_wr_ready l <=? l_now l); [|discriminate].
     inversion Hoff; subst l1; clear Hoff. exists []. unfold deliver_sink.
     destruct (zlen (cdata c) =? 0) eqn:Hz.
     + assert (cdata c = []) by (apply zlen_nil_iff; lia).
@@ -337,7 +338,8 @@ Proof.
       (* the reader hands its chunk to stub 0 (or to the sink of an empty chain) *)
       unfold offer in Hoff.
       destruct (l_stubs l) as [|t ss] eqn:Hss; simpl in Hoff.
-      * inversion Hoff; subst l1. unfold deliver_sink.
+      * destruct (l_wr_ready l <=? l_now l); [|discriminate].
+        inversion Hoff; subst l1. unfold deliver_sink.
         destruct (zlen (cdata c) =? 0) eqn:Hz.
         -- assert (Hc : cdata c = []) by (apply zlen_nil_iff; lia).
            split; [unfold link_ok; simpl; rewrite Hss; constructor|].
